@@ -291,7 +291,7 @@ impl Session {
                     log.push(e.clone());
                 }
             }
-            if !wait || self.expected_updates == 0 || t0.elapsed() > Duration::from_secs(25) {
+            if !wait || self.expected_updates == 0 || t0.elapsed() > Duration::from_secs(60) {
                 break;
             }
             std::thread::sleep(Duration::from_millis(15));
@@ -539,6 +539,41 @@ fn race_stale_write(s: &mut Session) {
     s.settle(false);
 }
 
+/// two users own a problem with the SAME name; one of them runs a slow task; what does the other one see meanwhile?
+fn slow_task_scenario(s: &mut Session) {
+    s.jars = vec![None; 3];
+    s.me = vec!["-".to_string(); 3];
+    s.ctrl.cmd(json!({"cmd": "reset"}));
+    s.scen = "slow-task".into();
+    s.seq = 0;
+    s.expected_updates = 0;
+    s.out.push(json!({"kind": "reset", "id": s.scen, "principals": 2}));
+    for (p, n, pw) in [(0usize, "stalice", "pw-A-slow"), (1usize, "stbob", "pw-B-slow")] {
+        s.req(Some(p), "register", json!({"username": n, "password": pw}));
+        s.req(Some(p), "login", json!({"username": n, "password": pw}));
+    }
+    // 15 self-supporting statements: 2^15 stable candidates keep the solve task busy for a few seconds in a debug build
+    let k = 15;
+    let mut slow = String::new();
+    for i in 0..k { slow.push_str(&format!("s(p1k1s{}).", i)); }
+    for i in 0..k { slow.push_str(&format!("ac(p1k1s{},p1k1s{}).", i, i)); }
+    s.req(Some(0), "add", json!({"name": "SAME", "parsing": "Naive", "class": "good", "code": slow}));
+    s.req(Some(1), "add", json!({"name": "SAME", "parsing": "Naive", "class": "good", "code": "s(p2k1s0).ac(p2k1s0,c(v))."}));
+    s.settle(true);
+    s.req(Some(0), "solve", json!({"name": "SAME", "strategy": "Stable"}));
+    for _ in 0..3 {
+        s.req(Some(1), "get", json!({"name": "SAME"}));
+        s.req(Some(1), "list", json!({}));
+        std::thread::sleep(Duration::from_millis(150));
+    }
+    s.req(Some(0), "get", json!({"name": "SAME"}));
+    s.settle(true);
+    s.final_phase = true;
+    s.req(Some(1), "get", json!({"name": "SAME"}));
+    s.settle(true);
+    s.final_phase = false;
+}
+
 pub fn main(args: &[String]) {
     let mut tier = "quick".to_string();
     let mut out = String::new();
@@ -571,6 +606,7 @@ pub fn main(args: &[String]) {
     for k in 0..n {
         random_scenario(&mut rng, &mut s, k);
     }
+    slow_task_scenario(&mut s);
     race_rename_window(&mut s);
     race_stale_write(&mut s);
     let mut f = std::io::BufWriter::new(std::fs::File::create(&out).expect("cannot create out file"));
@@ -578,7 +614,7 @@ pub fn main(args: &[String]) {
         writeln!(f, "{}", r).unwrap();
     }
     f.flush().unwrap();
-    eprintln!("server: {} scenarios, {} records", n + 3, s.out.len());
+    eprintln!("server: {} scenarios, {} records", n + 4, s.out.len());
     drop(procs);
     std::process::exit(0);
 }
